@@ -140,7 +140,7 @@ pub fn arb_reply() -> BoxedStrategy<Reply> {
         6 => Just(Body::Success),
         2 => (0u16..400).prop_map(Body::Error),
         1 => prop_oneof![Just(100u16), Just(120u16), Just(0u16), Just(101u16 + 37)].prop_map(Body::Error),
-        4 => (0u8..8, any::<bool>(), any::<bool>(), 0u8..4, 0u8..9, prop_oneof![9 => Just(false), 1 => Just(true)], prop_oneof![9 => Just(false), 1 => Just(true)])
+        4 => (0u8..10, any::<bool>(), any::<bool>(), 0u8..4, 0u8..9, prop_oneof![9 => Just(false), 1 => Just(true)], prop_oneof![9 => Just(false), 1 => Just(true)])
             .prop_map(|(algs, anon, cookie, realm, nonce, drop_realm, drop_nonce)| Body::Lt401 { algs, anon, cookie, realm, nonce, drop_realm, drop_nonce }),
         2 => (0u8..9, prop_oneof![9 => Just(false), 1 => Just(true)]).prop_map(|(nonce, drop_nonce)| Body::Lt438 { nonce, drop_nonce }),
         1 => Just(Body::Indication),
@@ -219,7 +219,7 @@ pub fn arb_history(o: HistOpts) -> BoxedStrategy<History> {
     );
     // with credentials configured, half of the histories start with a scripted exchange that brings the client
     // into a deeper credential state (long-term: challenged / authenticated; short-term: algorithm learned)
-    (arb_cfg(&o), ops, lates, 0u8..8, 0u8..8, any::<bool>())
+    (arb_cfg(&o), ops, lates, 0u8..8, 0u8..10, any::<bool>())
         .prop_map(|(cfg, mut ops, lates, warm, algs, anon)| {
             let fp = if cfg.fingerprint { FpMode::Valid } else { FpMode::Absent };
             let send = Op::Send { method: 1, attrs: vec![], small_buf: false };
